@@ -360,7 +360,18 @@ func genC01(r *Rng, e *Emitter, n int) {
 			e.emit("C01.newflat.mpoint", fmt.Sprintf("(%d %s %s)", int(l), sxCoord(flat), endsSx), guard(func() string {
 				g := geom.NewMultiPointFlat(l, flat, opts...)
 				rb := guard(func() string { return "(ok " + sxMCoords(g.Coords()) + ")" })
-				return "(ok (" + sxG2(g.Layout(), g.Stride(), g.FlatCoords(), g.Ends(), g.SRID()) + " " + rb + "))"
+				out := "(ok (" + sxG2(g.Layout(), g.Stride(), g.FlatCoords(), g.Ends(), g.SRID()) + " " + rb + "))"
+				// the caller goes on to use what it was handed (an EMPTY member pushed, a non-empty one
+				// pushed): what later constructor calls return has nothing to do with that
+				guard(func() string {
+					if len(flat)%3 == 0 {
+						g.Push(geom.NewPointEmpty(l))
+					} else if len(flat)%3 == 1 {
+						g.Push(geom.NewPointFlat(l, make([]float64, l.Stride())))
+					}
+					return ""
+				})
+				return out
 			}))
 			continue
 		}
@@ -396,6 +407,9 @@ func genC01(r *Rng, e *Emitter, n int) {
 				g, err := p.SetCoords(c)
 				if err != nil {
 					return sxErr(err)
+				}
+				for i := range c { // the caller's coordinate is the caller's to reuse
+					c[i] = -12345
 				}
 				rb := guard(func() string { return "(ok " + sxCoord(g.Coords()) + ")" })
 				return "(ok (" + sxG1(g.Layout(), g.Stride(), g.FlatCoords(), g.SRID()) + " " + rb + "))"
